@@ -30,8 +30,11 @@ const orderCanary = `//go:build verif
 package config
 
 import (
+	"context"
 	"sort"
 	"time"
+
+	"github.com/rs/zerolog"
 )
 
 func verifCanaryOrderFirstWins(m map[string]int) (string, error) {
@@ -99,6 +102,17 @@ func verifCanaryOrderKeyed(m map[string]int, d map[string]int) int {
 }
 
 func verifCanaryClock() int64 { return time.Now().Unix() }
+
+func verifCanaryClockLogged(ctx context.Context) {
+	start := time.Now()
+	zerolog.Ctx(ctx).Debug().Dur("took", time.Since(start)).Msg("done")
+}
+
+func verifCanaryClockLeaks(ctx context.Context) int64 {
+	start := time.Now()
+	zerolog.Ctx(ctx).Debug().Time("at", start).Msg("started")
+	return start.Unix()
+}
 `
 
 // canaries that the rule must reject (true) or accept (false)
@@ -110,6 +124,8 @@ var orderCanaryExpect = map[string]bool{
 	"config.verifCanaryOrderCross/maprange#0/order-independent":     true,
 	"config.verifCanaryOrderCallee/maprange#0/order-independent":    true,
 	"config.verifCanaryClock/effects#deterministic-sources":         true,
+	"config.verifCanaryClockLeaks/effects#deterministic-sources":    true,
+	"config.verifCanaryClockLogged/effects#deterministic-sources":   false,
 	"config.verifCanaryOrderSorted/maprange#0/order-independent":    false,
 	"config.verifCanaryOrderKeyed/maprange#0/order-independent":     false,
 }
@@ -135,6 +151,7 @@ func orderPhase(cr *checkResult, w *symex.World) {
 	known := loadKnownFindings()
 	results := w.OrderCheck(orderScope)
 	var assumedLoops []map[string]string
+	var exceptedLoops []map[string]any
 	assumes := map[string]bool{}
 	fnSeen := map[string]bool{}
 	seenCanary := map[string]bool{}
@@ -167,6 +184,14 @@ func orderPhase(cr *checkResult, w *symex.World) {
 		}
 		for _, s := range r.Assumes {
 			assumes[s] = true
+		}
+		if r.Excepted != nil {
+			e := map[string]any{"loop": r.Name, "at": r.Pos}
+			for k, v := range r.Excepted {
+				e[k] = v
+			}
+			exceptedLoops = append(exceptedLoops, e)
+			cr.assumptions = append(cr.assumptions, fmt.Sprintf("PARTLY CHECKED: %s is checked except for what its calls of %v do to state shared by the iterations (%v)", r.Name, r.Excepted["calls"], r.Excepted["reason"]))
 		}
 		if r.OK {
 			cr.obligations++
@@ -209,6 +234,7 @@ func orderPhase(cr *checkResult, w *symex.World) {
 	sort.Strings(as)
 	cr.extra["order_rule_assumptions"] = as
 	cr.extra["order_assumed_loops"] = assumedLoops
+	cr.extra["order_partly_assumed_loops"] = exceptedLoops
 	cr.assumptions = append(cr.assumptions, as...)
 	for _, l := range assumedLoops {
 		cr.assumptions = append(cr.assumptions, "NOT CHECKED, assumed order-independent: "+l["loop"]+" ("+l["assumed_because"]+")")
@@ -289,9 +315,12 @@ func repeatPhase(cr *checkResult, env *instEnv) {
 		k = 10
 	}
 	variants := []instVariant{
-		{pkg: "d", template: "testify", templateData: "{unroll-variadic: true}", source: "d/ifaces.go", srcPkg: "d", extraDirs: []string{"dq"}},
-		{pkg: "dm", template: "matryer", templateData: "{skip-ensure: true}", source: "d/ifaces.go", srcPkg: "d", extraDirs: []string{"dq"}},
+		{pkg: "d", template: "testify", templateData: "{unroll-variadic: true}", source: "d/ifaces.go", srcPkg: "d", extraDirs: []string{"dq"}, moreSources: []string{"d/zz_more.go"}},
+		{pkg: "dm", template: "matryer", templateData: "{skip-ensure: true}", source: "d/ifaces.go", srcPkg: "d", extraDirs: []string{"dq"}, moreSources: []string{"d/zz_more.go"}},
+		// one output file per interface: several files share one source package and one output package
+		{pkg: "df", template: "testify", templateData: "{unroll-variadic: true}", source: "d/ifaces.go", srcPkg: "d", extraDirs: []string{"dq"}, moreSources: []string{"d/zz_more.go"}, filename: "mock_{{.InterfaceName}}_gen.go"},
 		{pkg: "t", template: "testify", templateData: "{unroll-variadic: false}"},
+		{pkg: "mf", template: "matryer", templateData: "{skip-ensure: false}", filename: "moq_{{.InterfaceName}}_gen.go"},
 		{pkg: "mo", template: "matryer", templateData: "{skip-ensure: false}", outOfPkg: true},
 	}
 	hashTree := func(root string) (map[string]string, error) {
@@ -328,7 +357,7 @@ func repeatPhase(cr *checkResult, env *instEnv) {
 		sort.Strings(d)
 		return d
 	}
-	res := map[string]any{"bound": fmt.Sprintf("%d runs of the binary built from the tree over the determinism corpus (/verif/corpus/d: six same-named packages in one signature; plus the main corpus in two layouts), and one further run over the tree that already contains the output; NOT a proof, not counted among the obligations", k)}
+	res := map[string]any{"bound": fmt.Sprintf("%d runs of the binary built from the tree over the determinism corpus (/verif/corpus/d: six same-named packages in one signature, a source file sorting after the generated one, one-file-per-package and one-file-per-interface layouts; plus the main corpus in three layouts), and one further run over the tree that already contains the output; NOT a proof, not counted among the obligations", k)}
 	cr.bounded = append(cr.bounded, "C06 repeat runs: "+res["bound"].(string))
 	var first map[string]string
 	var firstRoot string
